@@ -244,3 +244,41 @@ def emitModule (t : PrecTable) (st : StmtTable) (m : Module) : List LT := emitBo
 def nlay (xs : List Tok) : Bool := xs.all fun x => !Spec.Lex.isLayout x
 
 end PMV.Spec.Layout
+
+/-! ### the decidable side condition: the header and statement tokens are real tokens -/
+namespace PMV.Spec.Layout
+open PMV PMV.Token PMV.Printer
+
+mutual
+/-- every clause header and every simple statement of the tree prints as a non-empty run of real tokens (no layout token
+    comes out of an expression; the only printer path that could emit one is a `yield` visited as a statement inside a
+    header, which the grammar does not allow) -/
+def okS (t : PrecTable) (st : StmtTable) : Stmt → Bool
+  | .functionDef isAsync name args body decs returns tps =>
+    decs.all (fun dec => nlay (tExpr t dec)) && nlay (hdrDef t isAsync name args returns tps) && okL t st body
+  | .classDef name bases kws body decs tps =>
+    decs.all (fun dec => nlay (tExpr t dec)) && nlay (hdrClass t name bases kws tps) && okL t st body
+  | .for_ isAsync tg it body orelse => nlay (hdrFor t isAsync tg it) && okL t st body && okL t st orelse
+  | .while_ c body orelse => nlay (tExpr t c) && okL t st body && okL t st orelse
+  | .if_ c body orelse => nlay (tExpr t c) && okL t st body && okL t st orelse
+  | .with_ isAsync items body => nlay (hdrWith t isAsync items) && okL t st body
+  | .match_ subj cases => nlay (tExpr t subj) && okC t st cases
+  | .try_ star body handlers orelse finalbody =>
+    okL t st body && okH t st star handlers && okL t st orelse && okL t st finalbody
+  | s => nlay (simpleToks t st s) && !(simpleToks t st s).isEmpty
+def okL (t : PrecTable) (st : StmtTable) : List Stmt → Bool
+  | [] => true
+  | s :: ss => okS t st s && okL t st ss
+def okH (t : PrecTable) (st : StmtTable) (star : Bool) : List Handler → Bool
+  | [] => true
+  | .mk ty name body :: hs => nlay (hdrExcept t star ty name) && okL t st body && okH t st star hs
+def okC (t : PrecTable) (st : StmtTable) : List MatchCase → Bool
+  | [] => true
+  | .mk pat guard body :: cs => nlay (hdrCase t pat guard) && okL t st body && okC t st cs
+end
+
+/-- the statement table agrees with the grammar on which statements are compound -/
+def TableOK (st : StmtTable) : Prop :=
+  (∀ s, isCompound st s = isCompoundSyn s) ∧ st.compound.contains "match_case" = true
+
+end PMV.Spec.Layout
